@@ -109,7 +109,9 @@ Aux:
 					if len(args) <= ai {
 						panic(fmt.Sprintf("Missing value for key :%s.", sym))
 					}
-					ss.Let(sym, args[ai])
+					if lam.isKeyParam(string(sym)) {
+						ss.Let(sym, args[ai])
+					}
 					ai++
 					continue
 				}
@@ -185,6 +187,23 @@ Aux:
 		}
 	}
 	return lam.BoundCall(ss, depth)
+}
+
+// isKeyParam returns true if name is the name of one of the &key parameters
+// of the lambda list.
+func (lam *Lambda) isKeyParam(name string) bool {
+	keys := false
+	for _, ad := range lam.Doc.Args {
+		switch {
+		case strings.EqualFold(ad.Name, AmpKey):
+			keys = true
+		case strings.EqualFold(ad.Name, AmpAux):
+			keys = false
+		case keys && !strings.HasPrefix(ad.Name, "&") && strings.EqualFold(ad.Name, name):
+			return true
+		}
+	}
+	return false
 }
 
 // BoundCall the the function with the bindings provided.
